@@ -50,6 +50,7 @@ Definition x_decrypt_aes_ecb_raw := decrypt_ecb real_aes.
 Definition x_new_header := new_header.
 Definition x_default_header := default_header.
 Definition x_run := run real_tdes real_aes.
+Definition x_step := step real_tdes real_aes.
 Definition x_mkState := mkState.
 Definition x_unwrap := unwrap real_tdes real_aes.
 Definition x_unwrap_legacy := unwrap_legacy real_tdes real_aes.
@@ -84,7 +85,7 @@ Extraction "model.ml"
   x_encode_pin_field_iso_4 x_encode_pan_field_iso_4 x_encipher_pinblock_iso_4
   x_decode_pinblock_iso_0 x_decode_pinblock_iso_2 x_decode_pinblock_iso_3
   x_decode_pin_field_iso_4 x_decipher_pinblock_iso_4
-  x_new_header x_default_header x_run x_mkState x_unwrap x_unwrap_legacy x_unwrap_clear
+  x_new_header x_default_header x_run x_step x_mkState x_unwrap x_unwrap_legacy x_unwrap_clear
   x_wrap_str x_header_str
   p_fromhex p_a2b p_str_of_N p_to_bytes_be p_hex_lower p_hex_upper p_class p_upper
   p_int_of_dec p_int_of_hex p_encode_ascii.
